@@ -140,7 +140,7 @@ package immutable
 //@ macro func dType(pass *analysis.Pass, d ast.Decl) string = !dHas(pass, d) ? "" : defName(pass.TypesInfo.TypeOf(cast(d, *ast.FuncDecl).Recv.List[0].Type))
 
 //@ func extractReceiverInfo
-//@   props C01 C10
+//@   props C01 C13 C10
 //@   fresh
 //@   ensures (result != nil) == fdHasRecv(pass, funcDecl)
 //@   ensures result != nil ==> result.name == funcDecl.Recv.List[0].Names[0].Name && result.typeName == defName(pass.TypesInfo.TypeOf(funcDecl.Recv.List[0].Type)) && result.pkgPath == defPkg(pass.TypesInfo.TypeOf(funcDecl.Recv.List[0].Type))
